@@ -67,6 +67,9 @@ def _hook(kind, idx, script):
             if _resume_layer():
                 _die(out[4:])
             return
+        if out == 'thread_restart':
+            _hook_worker_restart(idx)
+            return
         if out == 'raise':
             raise ValueError('%s of layer %d' % (kind, idx))
         if out == 'raise_unhashable':
@@ -441,6 +444,30 @@ def _cleanup(self, tidx, T, j):
     emit('t_cleanup', tidx, j)
     _writes(T, 'cleanup%d' % j)
     _act(self, T['cleanups'][j])
+
+
+_hook_worker = []
+
+
+def _hook_worker_restart(idx):
+    """A layer that keeps a worker thread for its tests and replaces it before every test (per-test hook)."""
+    if _hook_worker:
+        ev, th = _hook_worker.pop()
+        ev.set()
+        th.join(10)
+    ev = threading.Event()
+    started = threading.Event()
+    box = {}
+
+    def run():
+        box['ident'] = threading.get_ident()
+        started.set()
+        ev.wait(60)
+    th = threading.Thread(target=run, name='layer-worker', daemon=True)
+    th.start()
+    started.wait(10)
+    _hook_worker.append((ev, th))
+    emit('hookthread', idx, [th.name, box.get('ident')])
 
 
 class FalsyThread(threading.Thread):
